@@ -33,7 +33,8 @@ STUBS = ['BLAS contract stub (object dtype)', 'numpy facade for tenpy.networks.m
          'tenpy.tools.math (dtype widening, abs/conj/real/norm routing)', 'Array.conj hook TENPY_VERIF_SYMBOLIC',
          'numpy.random.Generator replaced by a stub returning a symbolic admissible outcome (sample_measurements)']
 ASSUMPTIONS = ['floats are reals', 'singular values > 0', 'sample_measurements: the sampled outcome has non-zero probability '
-               '(rho_diag[sigma] > 0) and norm_tol is large (the tensors are not canonical, so intermediate states are not normalised)']
+               '(paths on which the norm of the projected state vanishes are dropped) and norm_tol=inf (the tensors are not canonical, '
+               'so the intermediate states are not normalised)']
 
 
 def setup_symbolic(case):
@@ -532,7 +533,9 @@ def terms_sum_case(ctx, **p):
 
 # ------------------------------------------------------------------------------------------------
 class _Rng:
-    """stands in for numpy.random.Generator: returns an arbitrary admissible outcome (symbolic selector)"""
+    """stands in for numpy.random.Generator: returns an arbitrary outcome (symbolic selector, one path per value).
+    Outcomes of probability zero are inadmissible: they show up as a division by the vanishing norm of the projected
+    state (ZeroDivisionError of npc / poison value) and those paths are dropped by the harness."""
 
     def __init__(self, ctx):
         self.ctx = ctx
@@ -544,7 +547,14 @@ class _Rng:
         s = ctx.choice(f'sigma{self.k}', int(n))
         self.k += 1
         if p is not None:
-            ctx.assume(p[s] > 0)  # admissible: non-zero probability
+            if ctx.symbolic:
+                from symx.scalars import R
+                ps = R.lift(p[s])
+                bad = ps.poison or (ps.is_const() and ps.const() == 0)
+            else:
+                bad = not (np.isfinite(p[s]) and p[s] > 0)
+            if bad:
+                ctx.assume(False)  # inadmissible: the outcome has probability zero (or the window state vanishes)
         self.outcomes.append(s)
         return s
 
@@ -557,13 +567,16 @@ def sample_case(ctx, **p):
     cplx_amp = p['complex_amplitude']
     rng = _Rng(ctx)
     try:
-        sigmas, weight = psi.sample_measurements(first, last, rng=rng, norm_tol=p.get('norm_tol', 1.e30), complex_amplitude=cplx_amp)
-    except ValueError as e:
-        if 'not normalized' in str(e):
-            ctx.prove(True, 'documented: refuses states that are not normalised to norm_tol')
-            ctx.note('not_normalized_paths')
-            return
-        raise
+        # norm_tol=inf: the tensors are not canonical, so the intermediate states are not normalised
+        sigmas, weight = psi.sample_measurements(first, last, rng=rng, norm_tol=p.get('norm_tol', np.inf), complex_amplitude=cplx_amp)
+    except ZeroDivisionError:
+        # an outcome of probability zero was "sampled" (the norm of the projected state vanishes on this path):
+        # inadmissible for a random generator -> the path is outside the assumption and dropped
+        ctx.assume(False)
+        return
+    if ctx.symbolic and getattr(weight, 'poison', False):
+        ctx.assume(False)
+        return
     ctx.note('sampled_paths')
     ctx.prove(list(sigmas) == rng.outcomes, 'sigmas are the sampled outcomes in site order')
     th = sm.theta(first, last)
@@ -763,8 +776,10 @@ def CASES(tier, seed):
         # ---- sampling
         for first in range(L):
             for last in range(first, L if bc != 'infinite' else min(first + 3, 2 * L)):
-                if last - first + 1 > 3 and not thorough:
+                wmax = 3 if kind in ('spinSz', 'fermN', 'fermP', 'shfNSz', 'spinP') else 2  # charge-free chi=2: polynomials of a 3-site
+                if last - first + 1 > wmax:                                                   # window with sqrt reductions are too slow
                     continue
                 for ca in (True, False):
                     add(f'sample[{first}..{last},complex_amplitude={ca}][{gn}]', 'sample_case', g, first=first, last=last, complex_amplitude=ca)
+                    cases[-1]['opts'].update(guided_with_side=True, lazy_abs=True, named_zero_tests=True)
     return cases
